@@ -319,8 +319,13 @@ def judgeLine (c : Ctx) (root : Tree) (rootId : Nat) (r : Res) (line : String) :
         let expNode := c.byId.get? (parseHexNat exp)
         let zeroWidth := match expNode with | some j => c.ft.sb j == c.ft.eb j | none => false
         let explained := navPort == some answer
+        let info := (c.ft.node k).info
         let label :=
-          if !explained && navPort.isSome then op ++ ":unexplained"
+          if op == "sx" then
+            (if hexOfString (nodeString c.lang info.raw info.alias) == answer && hasHiddenMissing c.lang info.raw info.alias
+             then "sx:hidden-missing-printed" else "sx")
+          else if !explained && navPort.isSome then op ++ ":unexplained"
+          else if op == "cbf" && answer == "-" && info.raw.data.symbol == symError then "cbf:error-parent-has-no-field-map"
           else if (op == "ns" || op == "nns") && zeroWidth then op ++ ":zero-width-sibling-skipped"
           else if (op == "dbr" || op == "ndbr" || op == "dpr" || op == "ndpr") && zeroWidth then op ++ ":zero-width"
           else if (op == "fcb" || op == "fncb") &&
